@@ -126,11 +126,19 @@ func (g *gen) file(size int, kind string, nameClass int) fileIn {
 }
 
 func (g *gen) multipartCases() {
-	r, rng := g.r, g.rng
+	r := g.r
 	kinds := []string{"path", "bytes", "reader", "upload"}
 	methods := []string{"POST", "POST", "PUT", "PATCH"}
 	n := r.Scale(330, 2400)
 	for i := 0; i < n; i++ {
+		g.oneBody(g.genMultipart(i, kinds, methods))
+	}
+}
+
+// genMultipart: one multipart request description (i steers the rare shapes).
+func (g *gen) genMultipart(i int, kinds, methods []string) reqIn {
+	r, rng := g.r, g.rng
+	{
 		in := reqIn{Kind: "multipart", Method: hk.Pick(rng, methods)}
 		nf := 0
 		switch rng.Intn(10) {
@@ -252,6 +260,112 @@ func (g *gen) multipartCases() {
 		if collides(in) { // a caller-chosen boundary that occurs in the content is outside the guard
 			in.Boundary = ""
 		}
+		return in
+	}
+}
+
+// ---- SetFiles: a map of parameter name -> path ----
+
+func (g *gen) setFilesCases() {
+	r, rng := g.r, g.rng
+	n := r.Scale(30, 400)
+	for i := 0; i < n; i++ {
+		in := reqIn{Kind: "multipart", Method: "POST", SetFiles: true}
+		nf := rng.Range(2, 5)
+		for j := 0; j < nf; j++ {
+			f := g.file(hk.Pick(rng, []int{0, 3, 511, 512, 513, 900}), "path", rng.Intn(2))
+			f.Param = fmt.Sprintf("p%d-%s", j, hk.Pick(rng, []string{"a", "file", "x y", "é", "q\"uote"}))
+			f.Name = fmt.Sprintf("%d-%s", j, f.Name)
+			in.Files = append(in.Files, f)
+		}
+		if rng.Bool() {
+			in.RForm = g.mpForm(rng.Range(1, 2), 0)
+		}
+		in.Chunked = rng.Chance(30)
+		g.oneBody(in)
+	}
+}
+
+// ---- io.Reader bodies of unknown size ----
+
+func (g *gen) streamCases() {
+	r, rng := g.r, g.rng
+	n := r.Scale(40, 500)
+	for i := 0; i < n; i++ {
+		c, _ := g.content(hk.Pick(rng, []int{0, 1, 100, 511, 512, 513, 4096, 32768, 40000}))
+		in := reqIn{Kind: "raw", Method: hk.Pick(rng, []string{"POST", "PUT", "PATCH"}), Raw: c, RawSet: true, Stream: true}
+		switch rng.Intn(4) {
+		case 0:
+			in.StreamSizes = []int{1, 7, 4096}
+		case 1:
+			in.StreamSizes = []int{rng.Range(1, 600)}
+		case 2:
+			in.StreamSizes = []int{32768}
+		}
+		if len(c) > 3000 && len(in.StreamSizes) == 1 && in.StreamSizes[0] < 64 {
+			in.StreamSizes = append(in.StreamSizes, 5000)
+		}
+		switch rng.Intn(4) {
+		case 0:
+			in.Callback = hk.Pick(rng, []string{"0", "1h"}) // the upload callback only exists for multipart files: never invoked here
+		case 1:
+			in.Chunked = true
+		}
+		if rng.Chance(30) {
+			in.RCT = hk.Pick(rng, []string{"application/octet-stream", "text/plain"})
+		}
+		if i%10 == 9 {
+			in.Method = hk.Pick(rng, []string{"GET", "HEAD", "OPTIONS"})
+		}
+		r.Count("stream")
+		g.oneBody(in)
+	}
+}
+
+// ---- the same bodies over HTTP/2 and HTTP/3 ----
+
+func (g *gen) protoCases() {
+	r, rng := g.r, g.rng
+	kinds := []string{"path", "bytes", "reader", "upload"}
+	methods := []string{"POST", "PUT"}
+	n := r.Scale(120, 1500)
+	for i := 0; i < n; i++ {
+		proto := []string{"h2", "h3"}[i%2]
+		if proto == "h3" && g.o.h3 == nil {
+			continue
+		}
+		var in reqIn
+		switch (i / 2) % 6 {
+		case 0, 1, 2: // multipart, mostly through the pipe (forced chunked) with upload callbacks
+			in = g.genMultipart(1000+i, kinds, methods)
+			if (i/2)%6 != 2 {
+				in.Chunked = true
+				if rng.Bool() {
+					in.Callback = hk.Pick(rng, []string{"0", "1ms", "1h"})
+				}
+			}
+		case 3:
+			in = reqIn{Kind: "form", Method: "POST", RForm: g.form(rng.Range(1, 3))}
+			if rng.Bool() {
+				in.CForm = g.form(1)
+			}
+			if rng.Bool() {
+				in.Ordered = g.ordered(rng.Range(1, 3))
+			}
+		case 4:
+			c, _ := g.content(hk.Pick(rng, []int{0, 1, 513, 20000, 70000}))
+			in = reqIn{Kind: "raw", Method: "POST", Raw: c, RawSet: true, Stream: rng.Bool()}
+			if in.Stream && rng.Bool() {
+				in.StreamSizes = []int{rng.Range(1, 3000), 32768}
+			}
+		default:
+			in = reqIn{Kind: "marshal", Method: "PUT", Marshal: hk.Pick(rng, []string{"doc", "docp", "struct"}), RCT: hk.Pick(rng, []string{"", "application/xml", "application/json"})}
+			if i%12 == 5 {
+				in.Method = hk.Pick(rng, []string{"GET", "HEAD", "OPTIONS"})
+			}
+		}
+		in.Proto = proto
+		r.Count("proto:" + proto + ":" + in.Kind)
 		g.oneBody(in)
 	}
 }
